@@ -90,7 +90,7 @@ func load() (*Loaded, error) {
 		return ld, fmt.Errorf("package errors:\n%s", strings.Join(ld.errors, "\n"))
 	}
 	ld.pkgs = pkgs
-	prog, spkgs := ssautil.AllPackages(pkgs, ssa.InstantiateGenerics)
+	prog, spkgs := ssautil.AllPackages(pkgs, ssa.InstantiateGenerics|ssa.GlobalDebug)
 	ld.prog = prog
 	ld.fset = prog.Fset
 	for i, sp := range spkgs {
@@ -200,7 +200,6 @@ func (e *Engine) indexFn(fn *ssa.Function) {
 		e.indexFn(a)
 	}
 }
-
 
 // docArchSpec extracts, on every run, the GOARCH table of one packager from
 // the documentation (www/docs/goarch-to-pkg.md) and renders it as the spec
